@@ -1057,8 +1057,11 @@ class Executor:
                             finally:
                                 self.frames.pop()
             st.assume_type(v)
-            if v.kind == 'dict' and st.use_old == 0 and as_ref(v).get_id() not in st.fresh:
-                pass
+            if v.kind == 'dict' or (v.kind == 'opt' and v.ty.args[0].kind == 'dict'):
+                # representation invariant of every Python dict (keys enumerate the domain once)
+                dv = v if v.kind == 'dict' else V(v.t, v.ty.args[0])
+                if v.kind == 'dict':
+                    st.assume_wf_dict(dv)
             return v
         # any: treat as an object reference
         v = V(st.read(as_ref(obj), name), ANY)
